@@ -102,7 +102,7 @@ def harness(it, px, params):
             px.finding({'key': bad[0], 'desc': bad[1], 'kind': 'accessor', 'accessor': acc, 'witness': rec['witness']})
         return rec
     # From round trips
-    kind = ['str', 'string', 'bool', 'decimal', 'list'][pick_config(px, 'from', 5)]
+    kind = ['str', 'string', 'bool', 'decimal', 'list', 'f64-whole', 'f32-whole'][pick_config(px, 'from', 7)]
     rec['from'] = kind
     from harness import refeval as re_
     if kind in ('str', 'string'):
@@ -120,6 +120,20 @@ def harness(it, px, params):
         ok_shape = o.kind == 'ret' and o.value.name == 'Bool'
         eq = ok_shape and (o.value.f[0] == b)
         src = api.V_bool(b)
+    elif kind in ('f64-whole', 'f32-whole'):
+        # every finite float without a fraction part below 2^96 denotes an integer: Value::from must denote exactly it
+        fty = kind[:3]
+        S = z3.Float64() if fty == 'f64' else z3.Float32()
+        v = z3.FP('fv', S)
+        px.add(z3.Not(z3.Or(z3.fpIsNaN(v), z3.fpIsInf(v))))
+        px.add(z3.fpEQ(z3.fpRoundToIntegral(z3.RTZ(), v), v))
+        px.add(z3.fpLT(z3.fpAbs(v), z3.FPVal(float(1 << 96), S)))
+        px.get_model()
+        exact = z3.BV2Int(z3.fpToSBV(z3.RTZ(), v, z3.BitVecSort(128)), True)
+        o = api.guarded(it, it.call, '<value::Value as From<%s>>::from' % fty, [v])
+        ok_shape = o.kind == 'ret' and o.value.name == 'Number' and o.value.f[0].s == 0
+        eq = ok_shape and (re_.I(o.value.f[0].m) == exact)
+        src = None
     elif kind == 'decimal':
         sc = params['scales'][pick_config(px, 'dscale', len(params['scales']))]
         m = px.int('m')
@@ -140,7 +154,14 @@ def harness(it, px, params):
     rec['outcome'] = o.kind
     px.cover('from-' + kind)
     okv, mod = px.check(eq) if ok_shape else (False, px.get_model())
-    rec['witness'] = sv.concrete(src, mod or px.get_model())
+    if src is None:
+        mm = mod or px.get_model()
+        bits = mm.eval(z3.fpToIEEEBV(v), model_completion=True).as_long()
+        import struct
+        fval = struct.unpack('<d', struct.pack('<Q', bits))[0] if fty == 'f64' else struct.unpack('<f', struct.pack('<I', bits))[0]
+        rec['witness'] = {'t': 'float', 'ty': fty, 'text': repr(fval), 'exact': str(int(fval))}
+    else:
+        rec['witness'] = sv.concrete(src, mod or px.get_model())
     if not okv:
         px.finding({'key': 'C17|from|%s|%s' % (kind, 'value-changed' if ok_shape else o.kind), 'desc': 'Value::from(%s) does not round-trip' % kind,
                     'kind': 'from', 'from': kind, 'witness': rec['witness']})
@@ -169,6 +190,12 @@ def native_check(ctx, f):
         confirmed = od.get('kind') not in ('ok', 'err') or (od.get('kind') == 'ok') != should_ok
         return sc, confirmed, od
     w = f['witness']
+    if f['from'] in ('f64-whole', 'f32-whole'):
+        sc = [{'op': 'value_from', 'ty': w['ty'], 'text': w['text']}]
+        od = ctx.native(sc, 'dev')[-1]
+        want = {'t': 'num', 'm': w['exact'], 's': 0}
+        confirmed = od.get('kind') != 'ok' or render.norm_num(od.get('value')) != render.norm_num(want)
+        return sc, confirmed, od
     ty = {'str': 'str', 'string': 'string', 'bool': 'bool', 'decimal': 'decimal', 'list': 'list'}[f['from']]
     step = {'op': 'value_from', 'ty': ty}
     if ty in ('str', 'string'):
@@ -249,7 +276,7 @@ def run(ctx):
     covers = set()
     for r in recs:
         covers.update(r.get('covers', []))
-    for need in ['integer-ok-scale%d' % s for s in scales if s <= 18] + ['integer-err', 'accessor-err'] + ['accessor-ok-' + a for a in ACCESSORS if a != 'integer'] + ['from-' + k for k in ('str', 'string', 'bool', 'decimal', 'list')]:
+    for need in ['integer-ok-scale%d' % s for s in scales if s <= 18] + ['integer-err', 'accessor-err'] + ['accessor-ok-' + a for a in ACCESSORS if a != 'integer'] + ['from-' + k for k in ('str', 'string', 'bool', 'decimal', 'list', 'f64-whole', 'f32-whole')]:
         if need not in covers:
             inconclusive.append('vacuity: cover %s not reached' % need)
     if not kres.get('ok'):
